@@ -13,7 +13,7 @@ PROP = 'C07'
 MANIFEST = dict(
     technique='TLA+ model (VmfIndex: by_class/by_target as maintained state, one action per mutation path) checked by TLC; every model transition executed on real VMF/Entity objects; implementation records validated by TLC (VmfIndexTrace)',
     category='model_checking',
-    text='TLC exhausts the index-maintenance design (2 maps with worldspawn (which can be named), 2-3 entities, classnames/targetnames with case variants, empty and absent keys, two spellings of the key; 16 mutation paths: Entity(), create_ent, add_ent, add_ents, remove_ent, Entity.remove, []=, update, del, pop, clear, make_unique, copy to either map, iteration of an index set with a mutation in the middle) with the invariants index = scan of the entities in the map (case-folded), search() = scan, worldspawn rule, isolation of the two maps. Every (state, action) pair of the bounded model is executed on real objects (source state built on fresh objects, also reached by its TLC path from the initial state) and every logged call is judged by TLC: raw by_class/by_target content and list(search(q)) against a scan of vmf.entities computed by the spec. Seeded random histories with up to 20 entities, Unicode names with non-trivial case folding, and VMF.parse results are validated the same way.',
+    text='TLC exhausts the index-maintenance design (2 maps with worldspawn (which can be named), 2-3 entities, classnames/targetnames with case variants, empty and absent keys, two spellings of the key; 16 mutation paths: Entity(), create_ent, add_ent, add_ents, remove_ent, Entity.remove, []=, update, del, pop, clear, make_unique, copy to either map, iteration of an index set, and lookups spanning several buckets - search() generators, items() snapshots - with a mutation in the middle) with the invariants index = scan of the entities in the map (case-folded), search() = scan, worldspawn rule, isolation of the two maps. Every (state, action) pair of the bounded model is executed on real objects (source state built on fresh objects, also reached by its TLC path from the initial state) and every logged call is judged by TLC: raw by_class/by_target content and list(search(q)) against a scan of vmf.entities computed by the spec. Seeded random histories with up to 20 entities, Unicode names with non-trivial case folding, and VMF.parse results are validated the same way.',
     design_ref='4 (C07)',
     note='Trusts TLC, the projection (public attributes by_class, by_target, entities, spawn, Entity mapping interface) and str.casefold as the definition of case-insensitive (supplied to TLC as a table). A record is judged only if the state before the call was in order; later calls of a broken history are reported as tainted, not judged. Only the agreement of the indexes with the entities after a call is judged; whether a call is refused or carried out, its exception and return value are free (a call whose effect on the entities is neither the modelled one nor none is counted as unexplained, its post-state judged all the same). Source states are built through the API and by VMF.parse() of a document holding them; the worldspawn is filed and judged like any entity in the map (targetname operations included). Adding one entity twice is outside the explored histories. Pure-Python tree only.',
 )
